@@ -270,6 +270,11 @@ func (o *opClient) inProcessOf(n *opNode, f func() error) error {
 func (o *opClient) Deploy(ctx context.Context, req *workerpb.DeployOperatorRequest) error {
 	simrt.Yield("rpc.DeployOperator")
 	n := o.node()
+	base := uint64(0)
+	for _, ck := range req.Checkpoints {
+		base = max(base, ck.CheckpointId)
+	}
+	o.w.m.setBase(o.id, base)
 	o.w.m.resetView(o.id)
 	return o.inProcessOf(n, func() error { return n.op.HandleDeploy(ctx, req, recSink{}) })
 }
@@ -474,6 +479,25 @@ func bodyOp(c *sim.Ctx) {
 	w := &opWorld{c: c, prop: prop, disk: disk, m: newRefModel(c, senders), ops: map[string]*opNode{}, regs: map[string]bool{}, acks: map[uint64][]*ackRec{}, kgs: kgs, senders: senders}
 	streams, pre, keyOf := buildItems(c, senders)
 	w.preBarrier, w.keyOf = pre, keyOf
+	setCuts := func() {
+		w.m.mu.Lock()
+		for s := range streams {
+			last := int64(0)
+			for _, it := range streams[s] {
+				switch it.kind {
+				case "wm":
+					last = it.wm
+				case "bar":
+					if w.m.cutWM[it.ckpt] == nil {
+						w.m.cutWM[it.ckpt] = make([]int64, senders)
+					}
+					w.m.cutWM[it.ckpt][s] = last
+				}
+			}
+		}
+		w.m.mu.Unlock()
+	}
+	setCuts()
 	w.pos = make([]int, senders)
 	srIDs := make([]string, senders)
 	for s := range srIDs {
@@ -564,6 +588,7 @@ func bodyOp(c *sim.Ctx) {
 							w.m.wmInvoke(id, s, it.wm)
 						case "bar":
 							ev = &workerpb.Event{Event: &workerpb.Event_CheckpointBarrier{CheckpointBarrier: &workerpb.CheckpointBarrier{CheckpointId: it.ckpt}}}
+							w.m.barInvoke(id, it.ckpt)
 						}
 						simrt.Yield("stream:" + it.kind)
 						if err := w.handleEvent(n, srIDs[s], ev); err != nil {
@@ -800,6 +825,7 @@ func bodyOp(c *sim.Ctx) {
 	}
 	w.preBarrier[final] = prefinal
 	w.mu.Unlock()
+	setCuts()
 	if !runPhase(final) {
 		return
 	}
